@@ -114,12 +114,24 @@ def run_loop_parts(idx):
     if len(loops) != 1:
         raise AnalysisBroken('hexsim::Processor::run no longer has exactly one top-level loop')
     loop = loops[0]
+    i = top.index(loop)
+    if loop['kind'] == 'ForStmt':
+        # for (init; cond; inc) body  ==  init; while (cond) { body; inc; }   provided the body has no `continue`
+        raw = loop.get('inner', [])
+        if len(raw) != 5 or not raw[2] or not raw[4]:
+            raise AnalysisBroken('hexsim::Processor::run: for-loop without a condition or body')
+        init, _condvar, cond, inc, body = raw
+        if _condvar:
+            raise AnalysisBroken('hexsim::Processor::run: for-loop with a condition variable')
+        if any(x['kind'] == 'ContinueStmt' for x in cast.walk(body)):
+            raise AnalysisBroken('hexsim::Processor::run: `continue` inside the for-loop body is not modelled')
+        stmts = children(body) if body['kind'] == 'CompoundStmt' else [body]
+        return f, loop, cond, stmts + ([inc] if inc else []), top[:i] + ([init] if init else []), top[i + 1:]
     if loop['kind'] != 'WhileStmt':
         raise AnalysisBroken('hexsim::Processor::run: unsupported loop kind %s' % loop['kind'])
     cc = children(loop)
     body = cc[1]
     stmts = children(body) if body['kind'] == 'CompoundStmt' else [body]
-    i = top.index(loop)
     return f, loop, cc[0], stmts, top[:i], top[i + 1:]
 
 
